@@ -153,11 +153,19 @@ def gen_instance(cfg):
                 reads[i, r, j, a] = p
             rows.append(r)
         own.append(rows)
+    if cfg["padding_skew"] and rng.random() < 0.4:
+        # zero-count rows are "absent" wherever they sit, not only at the tail: interleave them
+        for i in range(ns):
+            order = list(range(mr))
+            rng.shuffle(order)
+            reads[i] = reads[i][order]
+            counts[i] = counts[i][order]
     if cfg["padding_skew"] and rng.random() < 0.3:
         # a zero-count padding row that is NOT all-NaN (stale data in the padding area)
         for i in range(ns):
-            for r in range(cfg["n_reads"][i], mr):
-                reads[i, r] = 0.5
+            for r in range(mr):
+                if counts[i, r] == 0:
+                    reads[i, r] = 0.5
     return haplotypes, fr, truth, reads, counts
 
 
